@@ -11,6 +11,8 @@ use crate::value::{
 };
 use std::cmp::Ordering;
 use std::f64::consts::{E, PI};
+#[cfg(kaj_rsass_verif)]
+use crate::verif::fastrand;
 
 mod css;
 mod distance;
